@@ -132,9 +132,41 @@ var ownScripts = []string{
 	`return Meta["deep"]["deep"]["n"] + len(Meta["also"]);`,
 	`n = 0; foreach k, v in Meta { n = n + len(string(v)); } return n;`,
 	`return string(Meta);`,
+	// objects the host hands to many evaluators with SetVariable (one allow-list,
+	// one lookup table, one string for all)
+	`return Name in BigList || lower(Name) in BigList;`,
+	`return [Email in BigList, "w17" in BigList, "nope" in BigList, BigList[Age]];`,
+	`n = 0; foreach i, v in BigList { if ( string(v) ~= /7$/ ) { n = n + i; } } return n;`,
+	`return [sort(BigList)[0], reverse(BigList, true)[0], len(BigList), len(string(BigList))];`,
+	`return [BigHash[Name], BigHash["k3"], BigHash[Age], len(BigHash), keys(BigHash)[0]];`,
+	`n = 0; foreach k, v in BigHash { n = n + len(string(k)) + len(string(v)); } return n;`,
+	`n = 0; foreach c in BigWord { n++; } return [n, BigWord[2], "w1" in BigWord, upper(BigWord), BigNumber + Age, BigFloat * 2];`,
 	// patterns that only exist at run time
 	`return match(Email, Pat);`,
 	`return [match(Email, Pat), replace(Email, Pat, "<>")];`,
+}
+
+// sharedHostVars builds, per workload, the objects that the host gives to
+// every private evaluator with SetVariable: nothing has looked at them yet
+// when the goroutines start.
+func sharedHostVars() map[string]object.Object {
+	list := &object.Array{}
+	for i := 0; i < 96; i++ {
+		list.Elements = append(list.Elements, &object.String{Value: fmt.Sprint("w", i)})
+	}
+	list.Elements = append(list.Elements, &object.String{Value: "Steve"}, &object.String{Value: "bob"}, &object.Integer{Value: 7}, &object.String{Value: "u3@example.com"})
+	hash := &object.Hash{Pairs: map[object.HashKey]object.HashPair{}}
+	put := func(k object.Object, v object.Object) {
+		hash.Pairs[k.(object.Hashable).HashKey()] = object.HashPair{Key: k, Value: v}
+	}
+	for i := 0; i < 14; i++ {
+		put(&object.String{Value: fmt.Sprint("k", i)}, &object.Integer{Value: int64(i)})
+		put(&object.Integer{Value: int64(i)}, &object.String{Value: fmt.Sprint("age", i)})
+	}
+	put(&object.String{Value: "Alice"}, list)
+	put(&object.Float{Value: 2.5}, &object.Float{Value: 2.5})
+	return map[string]object.Object{"BigList": list, "BigHash": hash, "BigWord": &object.String{Value: "w1狐w2犬w3"},
+		"BigNumber": &object.Integer{Value: 70000}, "BigFloat": &object.Float{Value: 1.25}}
 }
 
 func journalWorkload(w *Workload) {
@@ -205,6 +237,8 @@ func runWorkload(w *Workload) error {
 			}(g)
 		}
 	}
+	// values every private evaluator is given: the same objects for all
+	hostVars := sharedHostVars()
 	// goroutines with their own evaluators
 	for g, script := range w.Own {
 		wg.Add(1)
@@ -213,11 +247,15 @@ func runWorkload(w *Workload) error {
 			<-start
 			for round := 0; round < 2; round++ {
 				e := evalfilter.New(script)
+				seq := evalfilter.New(script)
+				for name, o := range hostVars {
+					e.SetVariable(name, o)
+					seq.SetVariable(name, o)
+				}
 				if err := e.Prepare(); err != nil {
 					errs <- fmt.Errorf("own evaluator %d: %v", g, err)
 					return
 				}
-				seq := evalfilter.New(script)
 				_ = seq.Prepare()
 				for k := 0; k < w.OwnRuns; k++ {
 					p := withFreshPattern(objectFor(g + k))
@@ -320,12 +358,16 @@ func TestC11ColdWorker(t *testing.T) {
 	var wg sync.WaitGroup
 	start := make(chan struct{})
 	errs := make(chan error, n)
+	hostVars := sharedHostVars()
 	for g := 0; g < n; g++ {
 		wg.Add(1)
 		go func(g int) {
 			defer wg.Done()
 			<-start
 			e := evalfilter.New(ownScripts[g%len(ownScripts)])
+			for name, o := range hostVars {
+				e.SetVariable(name, o)
+			}
 			if err := e.Prepare(); err != nil {
 				errs <- fmt.Errorf("goroutine %d: Prepare: %v", g, err)
 				return
